@@ -28,9 +28,16 @@
 //	                              hash missing  =>  rule rejects
 //	neither present:              hash declared =>  rule rejects
 //
+// "present" means a NON-EMPTY collection (cardano-ledger: `if null dats then
+// mempty else originalBytes dats`): a witness field 4 that is there but empty
+// (80, 9f ff, d9 0102 80, d9 0102 9f ff) contributes no bytes, and a
+// transaction whose fields 4 / 5 are both absent-or-empty has neither.
+//
 // When field 5 is absent (datums only) there are no original redeemer bytes;
 // the ledger hashes the era's empty encoding (80 before Conway, a0 from Conway
-// on). Those cases are judged in the forward direction only.
+// on). Those cases, and a field 5 that is present but empty (80, 9f ff, a0,
+// bf ff; reference = its original bytes), are judged in the forward direction
+// only.
 package c31
 
 import (
@@ -51,7 +58,7 @@ import (
 func init() {
 	core.Register(&core.Monitor{
 		ID:            "C31",
-		Rule:          "(L) all 15 non-empty subsets + the empty subset of {V1,V2,V3,V4} x PRNG cost models (quick 150, thorough 5000 draws per subset; lengths 0..300; entries small / negative / +-2^63 boundary) against an independent encoder; (R) era (Alonzo..Dijkstra) x language subset the era has (witness scripts; Babbage+ also supplied by reference input) x redeemer form (list / map where decodable) x datums 0..3 x encoding (canonical / PRNG non-canonical redeemer and datum bytes) x unused Plutus reference script (none / on a reference input / on a spent input) x declared hash (correct, absent, and every applicable wrong construction: bit flipped, V1 as definite list, V1 not double wrapped, V1 key single wrapped, entries in reverse order, re-encoded redeemers / datums, datums omitted, empty datum list included, extra language, missing language, other cost model, unused reference language included) with PRNG cost models (quick 4 draws, thorough 60); plus no-redeemer-no-datum transactions with / without a declared hash; a case is non-trivial when the transaction decodes; distinct by (era, transaction id, cost-model digest)",
+		Rule:          "(L) all 15 non-empty subsets + the empty subset of {V1,V2,V3,V4} x PRNG cost models (quick 150, thorough 5000 draws per subset; lengths 0..300; entries small / negative / +-2^63 boundary) against an independent encoder; (R) era (Alonzo..Dijkstra) x language subset the era has (witness scripts; Babbage+ also supplied by reference input) x redeemer form (list / map where decodable) x datums 0..3 x encoding (canonical / PRNG non-canonical redeemer and datum bytes) x unused Plutus reference script (none / on a reference input / on a spent input) x declared hash (correct, absent, and every applicable wrong construction: bit flipped, V1 as definite list, V1 not double wrapped, V1 key single wrapped, entries in reverse order, re-encoded redeemers / datums, datums omitted, empty datum list included, extra language, missing language, other cost model, unused reference language included) with PRNG cost models (quick 4 draws, thorough 60); plus witness field 4 present but empty in 4 encodings with redeemers present (declared: correct, absent, empty-field bytes included, bit flipped, missing language, other cost model), field 5 present but empty in 4 encodings with datums / an empty datum field / no datum field, and no-redeemer-no-datum transactions with / without a declared hash; a case is non-trivial when the transaction decodes; distinct by (era, transaction id, cost-model digest)",
 		MinNontrivial: 8000,
 		Assumptions: []string{
 			"the languages of a transaction are those of the Plutus scripts it executes (cardano-ledger ppViewHashesMatch: scriptsProvided restricted to scriptsNeeded); a Plutus reference script that merely sits on a reference input or on a spent UTxO is not used",
@@ -103,6 +110,8 @@ const (
 	altOtherCost     alteration = "other-cost-model"
 	altBitFlip       alteration = "bit-flipped"
 	altUnusedRefLang alteration = "unused-reference-script-language-included"
+	altEmptyDatField alteration = "empty-datum-field-bytes-included"
+	altDefaultRed    alteration = "era-default-bytes-instead-of-empty-redeemer-field"
 )
 
 // langViews is the reference encoder of the language views.
@@ -333,6 +342,37 @@ type rcase struct {
 	declared    alteration // altNone = correct
 	absent      bool       // no script data hash in the body
 	draw        int
+	// datField / redField: 0 = as nDatums / redeemers say; 1..4 = the field is
+	// PRESENT in the witness set but EMPTY (see emptyShapes)
+	datField int
+	redField int
+}
+
+// emptyShape returns an empty collection in one of four encodings. Datums:
+// 80, 9f ff, d9 0102 80, d9 0102 9f ff. Redeemers: 80, 9f ff, a0, bf ff.
+func emptyShape(k int, redeemers bool) *cborx.Node {
+	switch k {
+	case 1:
+		return cborx.A()
+	case 2:
+		return cborx.AIndef()
+	case 3:
+		if redeemers {
+			return cborx.M()
+		}
+		return cborx.T(258, cborx.A())
+	}
+	if redeemers {
+		m := cborx.M()
+		m.SetForm(cborx.FormIndef)
+		return m
+	}
+	return cborx.T(258, cborx.AIndef())
+}
+
+var emptyShapeName = map[bool][]string{
+	false: {"", "80", "9fff", "d9010280", "d901029fff"},
+	true:  {"", "80", "9fff", "a0", "bfff"},
 }
 
 func (t rcase) String() string {
@@ -342,8 +382,15 @@ func (t rcase) String() string {
 	} else if t.declared != altNone {
 		d = string(t.declared)
 	}
-	return fmt.Sprintf("era=%s languages=%v script0_via_reference_input=%v redeemers=%v map_form=%v datums=%d noncanonical=%v unused_reference_script=%s(lang %d) declared=%s draw=%d",
-		t.era, t.langs, t.viaRef, t.redeemers, t.mapForm, t.nDatums, t.noncanon, refPlaceName[t.unusedPlace], t.unusedLang, d, t.draw)
+	extra := ""
+	if t.datField > 0 {
+		extra += " datum_field_present_but_empty=" + emptyShapeName[false][t.datField]
+	}
+	if t.redField > 0 {
+		extra += " redeemer_field_present_but_empty=" + emptyShapeName[true][t.redField]
+	}
+	return fmt.Sprintf("era=%s languages=%v script0_via_reference_input=%v redeemers=%v map_form=%v datums=%d noncanonical=%v unused_reference_script=%s(lang %d)%s declared=%s draw=%d",
+		t.era, t.langs, t.viaRef, t.redeemers, t.mapForm, t.nDatums, t.noncanon, refPlaceName[t.unusedPlace], t.unusedLang, extra, d, t.draw)
 }
 
 func eraLangs(e lg.Era) []uint {
@@ -394,6 +441,8 @@ type builtCase struct {
 	datBytes []byte // original bytes of witness field 4 (nil: absent)
 	redNode  *cborx.Node
 	datNode  *cborx.Node
+	redEmpty bool // field 5 present with no redeemers
+	datEmpty bool // field 4 present with no datums
 	ref      lg.Hash32
 	declared *lg.Hash32
 }
@@ -404,7 +453,7 @@ func hashInput(t rcase, b *builtCase, cm map[uint][]int64, alt alteration) []byt
 	switch {
 	case b.redNode != nil && alt == altReencodedRed:
 		buf = append(buf, canonical(b.redNode)...)
-	case b.redNode != nil:
+	case b.redNode != nil && !(b.redEmpty && alt == altDefaultRed):
 		buf = append(buf, b.redNode.Encode()...)
 	case t.era >= lg.Conway:
 		buf = append(buf, 0xa0)
@@ -412,6 +461,8 @@ func hashInput(t rcase, b *builtCase, cm map[uint][]int64, alt alteration) []byt
 		buf = append(buf, 0x80)
 	}
 	switch {
+	case b.datNode != nil && b.datEmpty && alt != altEmptyDatField:
+		// an empty datum set contributes nothing, whatever bytes carry it
 	case b.datNode != nil && alt == altDatumsOmitted:
 	case b.datNode != nil && alt == altReencodedDat:
 		buf = append(buf, canonical(b.datNode)...)
@@ -562,6 +613,12 @@ func build(t rcase, r *core.Rand) (*builtCase, error) {
 			b.datNode = cborx.T(258, b.datNode)
 		}
 	}
+	if t.datField > 0 {
+		b.datNode, b.datEmpty = emptyShape(t.datField, false), true
+	}
+	if t.redField > 0 {
+		b.redNode, b.redEmpty = emptyShape(t.redField, true), true
+	}
 	if t.noncanon {
 		o := blockx.RandOpts{Containers: true, Ints: true, Num: 1, Den: 2}
 		if b.redNode != nil {
@@ -659,6 +716,52 @@ func rcases(c *core.Ctx) []rcase {
 				}
 			}
 		}
+		// witness field 4 present but EMPTY, redeemers present: the empty set
+		// contributes no bytes to the pre-image
+		for _, ls := range subsets(eraLangs(e)) {
+			for _, mf := range forms {
+				for df := 1; df <= 4; df++ {
+					for d := 0; d < draws; d++ {
+						base := rcase{era: e, langs: ls, mapForm: mf, redeemers: true, noncanon: d%2 == 1, unusedLang: -1, draw: d, datField: df}
+						out = append(out, base)
+						a := base
+						a.absent = true
+						out = append(out, a)
+						for _, wk := range []alteration{altEmptyDatField, altBitFlip, altMissingLang, altOtherCost} {
+							x := base
+							x.declared = wk
+							out = append(out, x)
+						}
+					}
+				}
+			}
+		}
+		// witness field 5 present but EMPTY (with non-empty datums, an empty
+		// datum field, or no datum field), and field 4 empty without field 5
+		for rf := 0; rf <= 4; rf++ {
+			for _, dat := range []int{0, 2, -1, -3} { // >0: datums; <0: empty datum field shape
+				if rf == 0 && dat >= 0 {
+					continue
+				}
+				for d := 0; d < draws; d++ {
+					base := rcase{era: e, noncanon: d%2 == 1, unusedLang: -1, draw: d, redField: rf}
+					if dat > 0 {
+						base.nDatums = dat
+					} else if dat < 0 {
+						base.datField = -dat
+					}
+					out = append(out, base)
+					a := base
+					a.absent = true
+					out = append(out, a)
+					for _, wk := range []alteration{altBitFlip, altDefaultRed, altEmptyDatField} {
+						x := base
+						x.declared = wk
+						out = append(out, x)
+					}
+				}
+			}
+		}
 		// datums without redeemers, and neither
 		for nd := 0; nd <= 2; nd++ {
 			for _, nc := range []bool{false, true} {
@@ -732,7 +835,8 @@ func run(c *core.Ctx) {
 			rerr = fmt.Errorf("panic: %v", val)
 		}
 		accept := rerr == nil
-		hasRD := b.redNode != nil || b.datNode != nil
+		hasRed := b.redNode != nil && !b.redEmpty
+		hasRD := hasRed || (b.datNode != nil && !b.datEmpty)
 		wit := func() map[string]any {
 			m := map[string]any{"case": desc, "era": en, "tx_cbor": core.HexFull(b.tx.Cbor), "rule_result": fmt.Sprint(rerr), "reference_hash": fmt.Sprintf("%x", b.ref[:]),
 				"original_redeemer_bytes": core.HexFull(b.redBytes), "original_datum_bytes": core.HexFull(b.datBytes),
@@ -769,7 +873,7 @@ func run(c *core.Ctx) {
 		case hasRD && wrongDeclared && accept:
 			co.add(finding{key: "C31:" + en + ":wrong-hash-accepted:" + string(t.declared), weight: weight, witness: wit(),
 				what: fmt.Sprintf("%s: the declared hash (built as '%s') differs from Blake2b-256(original redeemer bytes || original datum bytes || language views) and the rule accepts (%s)", en, t.declared, desc)})
-		case hasRD && b.declared != nil && !wrongDeclared && !accept && b.redNode != nil:
+		case hasRD && b.declared != nil && !wrongDeclared && !accept && hasRed:
 			co.add(finding{key: "C31:" + en + ":converse:correct-hash-rejected:" + class, weight: weight, witness: wit(),
 				what: fmt.Sprintf("%s (converse): the declared hash equals the reference hash and the rule rejects: %v (%s)", en, rerr, desc)})
 		case hasRD && b.declared != nil && !wrongDeclared && !accept:
@@ -809,21 +913,29 @@ func applicable(t rcase) bool {
 	case altReencodedRed:
 		return t.noncanon && t.redeemers
 	case altReencodedDat, altDatumsOmitted:
-		return t.nDatums > 0 && (t.declared == altDatumsOmitted || t.noncanon)
+		return t.nDatums > 0 && t.datField == 0 && (t.declared == altDatumsOmitted || t.noncanon)
 	case altEmptyDatums:
-		return t.nDatums == 0
+		return t.nDatums == 0 && t.datField == 0
 	case altExtraLang:
 		return len(t.langs) < 4
 	case altMissingLang, altOtherCost:
 		return len(t.langs) >= 1
 	case altUnusedRefLang:
 		return t.unusedLang >= 0
+	case altEmptyDatField:
+		return t.datField > 0
+	case altDefaultRed:
+		return t.redField > 0
 	}
 	return true
 }
 
 func caseClass(t rcase) string {
 	switch {
+	case t.datField > 0:
+		return "empty-datum-field"
+	case t.redField > 0:
+		return "empty-redeemer-field"
 	case t.unusedLang >= 0:
 		return "unused-reference-script-" + refPlaceName[t.unusedPlace]
 	case t.noncanon:
